@@ -2,8 +2,8 @@
 # tool/seed_worktree.sh C07 : scratch worktree of /repo HEAD under /tmp/seed, configured and built
 set -e
 id=$1
-wt=/tmp/seed/$id
-mkdir -p /tmp/seed
+wt=${SEED_DIR:-/tmp/seed}/$id
+mkdir -p ${SEED_DIR:-/tmp/seed}
 git -C /repo worktree add -q --detach "$wt" HEAD
 cmake -S "$wt" -B "$wt/_build" -G Ninja -DBUILD_INTERNAL_TESTS=ON -DBUILD_TESTS=ON -DBUILD_EXAMPLES=OFF -DCMAKE_BUILD_TYPE=RelWithDebInfo >/dev/null 2>&1
 ninja -C "$wt/_build" >/dev/null 2>&1
